@@ -240,6 +240,8 @@ func runC20(c *Ctx) {
 	time.Sleep(50 * time.Millisecond)
 	g0 := runtime.NumGoroutine()
 	for k := 0; k < cycles; k++ {
+		// the same directory, spelt differently from cycle to cycle
+		w.Dir = []string{wd, wd + "/", filepath.Join(filepath.Dir(wd), ".", filepath.Base(wd)) + "/.", filepath.Dir(wd) + "//" + filepath.Base(wd)}[k%4]
 		if err := w.Provision(); err != nil {
 			c.Fail("", fmt.Sprintf("provision/cleanup cycle %d: provisioning on the same work_dir failed: %v", k, err), k)
 			break
@@ -251,6 +253,7 @@ func runC20(c *Ctx) {
 		}
 		w.V = nil
 	}
+	w.Dir = wd
 	time.Sleep(300 * time.Millisecond)
 	g1 := runtime.NumGoroutine()
 	nCases += cycles
@@ -296,5 +299,5 @@ func runC20(c *Ctx) {
 	c.Sample(map[string]interface{}{"hostile_locations": hostile[:6], "foreign": foreign, "temps": temps, "cycles": cycles, "goroutines": []int{g0, g1}})
 	c.WriteCoqSharded("cases_C20", "From Verif Require Import Base Bytes FsNames RunFs.\nOpen Scope N_scope.\n", "fscase", items, "fs_mismatches", 100)
 	c.Rep.Cases = nCases
-	c.Rep.Rule = "a sandbox directory is diffed around a validator (disk storage) whose certificates name 18 hostile distribution points (traversal, encoded separators and NUL, 10 KB, unicode, temp-pattern look-alikes, near-equal pairs), served good or garbage; restart on the same work_dir; start-up sweep over 8 foreign look-alike names and 4 temp-pattern names (files and directories); refreshes of loaded entries that meet garbage / a bad signature / a good list; provision/cleanup cycles on one work_dir with goroutine count; provisioning that fails half-way followed by Cleanup and a new provisioning; location strings pairwise distinct incl. 12 near-equal ones (%2F vs /, query values, trailing slash, %41 vs A, + vs %20 vs %2B), each must bring its own store; the model's hex naming and sweep recogniser are evaluated on the same digests / names"
+	c.Rep.Rule = "a sandbox directory is diffed around a validator (disk storage) whose certificates name 18 hostile distribution points (traversal, encoded separators and NUL, 10 KB, unicode, temp-pattern look-alikes, near-equal pairs), served good or garbage; restart on the same work_dir; start-up sweep over 8 foreign look-alike names and 4 temp-pattern names (files and directories); refreshes of loaded entries that meet garbage / a bad signature / a good list; provision/cleanup cycles on one work_dir (spelt with and without trailing slash, /./ and //) with goroutine count; provisioning that fails half-way followed by Cleanup and a new provisioning; location strings pairwise distinct incl. 12 near-equal ones (%2F vs /, query values, trailing slash, %41 vs A, + vs %20 vs %2B), each must bring its own store; the model's hex naming and sweep recogniser are evaluated on the same digests / names"
 }
